@@ -294,6 +294,7 @@ func flagsConsistent(d *tensor.Dense) (s string) {
 var serFormats = []string{"gob", "npy", "csv", "pb", "fb"}
 
 func genC14(tier string, r *rng, emit func(string)) {
+	genXKinds("C14", emit)
 	n := 900
 	if tier == "thorough" {
 		n = 6000
